@@ -26,6 +26,52 @@ import (
 type accRes struct {
 	Ok  bool  `json:"ok"`
 	Out []int `json:"out"`
+	// the same values, each fetched by a call that passes ONLY that one pointer (the others nil; "only arguments that are
+	// not nil are parsed and filled"); empty for accessors with fewer than two arguments and for rejected messages
+	Single []int `json:"single"`
+}
+
+// midiAccSingle fetches every value of accessor i with a call of its own, all other pointers nil.
+func midiAccSingle(i int, m midi.Message) []int {
+	var a, b, c uint8
+	var rel int16
+	var abs uint16
+	switch i {
+	case 0:
+		m.GetNoteOn(&a, nil, nil)
+		m.GetNoteOn(nil, &b, nil)
+		m.GetNoteOn(nil, nil, &c)
+		return []int{int(a), int(b), int(c)}
+	case 1:
+		m.GetNoteOff(&a, nil, nil)
+		m.GetNoteOff(nil, &b, nil)
+		m.GetNoteOff(nil, nil, &c)
+		return []int{int(a), int(b), int(c)}
+	case 2:
+		m.GetPolyAfterTouch(&a, nil, nil)
+		m.GetPolyAfterTouch(nil, &b, nil)
+		m.GetPolyAfterTouch(nil, nil, &c)
+		return []int{int(a), int(b), int(c)}
+	case 3:
+		m.GetAfterTouch(&a, nil)
+		m.GetAfterTouch(nil, &b)
+		return []int{int(a), int(b)}
+	case 4:
+		m.GetProgramChange(&a, nil)
+		m.GetProgramChange(nil, &b)
+		return []int{int(a), int(b)}
+	case 5:
+		m.GetPitchBend(&a, nil, nil)
+		m.GetPitchBend(nil, &rel, nil)
+		m.GetPitchBend(nil, nil, &abs)
+		return []int{int(a), int(rel), int(abs)}
+	case 6:
+		m.GetControlChange(&a, nil, nil)
+		m.GetControlChange(nil, &b, nil)
+		m.GetControlChange(nil, nil, &c)
+		return []int{int(a), int(b), int(c)}
+	}
+	return []int{}
 }
 
 var midiAccNames = []string{"NoteOn", "NoteOff", "PolyAfterTouch", "AfterTouch", "ProgramChange", "PitchBend", "ControlChange", "MTC", "SongSelect", "SPP", "SysEx"}
@@ -99,12 +145,13 @@ func allMidiAcc(m midi.Message) map[string]accRes {
 	r := map[string]accRes{}
 	for i, n := range midiAccNames {
 		ok, v, sx := midiAcc(i, m, false)
-		a := accRes{Ok: ok, Out: []int{}}
+		a := accRes{Ok: ok, Out: []int{}, Single: []int{}}
 		if ok {
 			if i == 10 {
 				a.Out = bytesToInts(sx)
 			} else {
 				a.Out = append(a.Out, v[:accArity[i]]...)
+				a.Single = midiAccSingle(i, m)
 			}
 		}
 		r[n] = a
@@ -354,6 +401,12 @@ func (t *Tables) checkCall(fn string, a []int, lp *loop) string {
 				for j := 0; j < accArity[i]; j++ {
 					if v[j] != eout[j] {
 						why = "matching accessor value"
+						return
+					}
+				}
+				for j, x := range midiAccSingle(i, m) { // one pointer at a time
+					if x != eout[j] {
+						why = "matching accessor value (single pointer)"
 						return
 					}
 				}
@@ -944,7 +997,30 @@ func cmdClsSweep(args []string) {
 	r := rand.New(rand.NewSource(*seed))
 	var rec ClsRec
 	var longBad int64
-	for i := 0; w.N < *nsamp; i++ {
+	// valid messages of every kind with the FIRST byte replaced by every value: what a message is must be decided by its
+	// first byte, not by the look of the rest (a quarter of these observations goes to TLC, and every one the mirror flags)
+	for _, msg := range [][]byte{midi.NoteOn(3, 60, 100), midi.NoteOff(3, 60), midi.ControlChange(3, 7, 100), midi.Pitchbend(4, 100), midi.AfterTouch(5, 9),
+		midi.PolyAfterTouch(6, 60, 9), midi.ProgramChange(7, 12), midi.SPP(100), midi.MTC(3), midi.SongSelect(4), midi.SysEx([]byte{1, 2, 3}),
+		midi.SysEx([]byte{0x51, 3, 0x10, 0}), smf.MetaTempo(120), smf.MetaText("text"), smf.MetaLyric("la"), smf.MetaChannel(3), smf.MetaPort(2),
+		smf.MetaSequenceNo(258), smf.MetaSequencerData([]byte{1, 2}), smf.MetaSMPTE(1, 2, 3, 4, 5), smf.MetaTimeSig(3, 4, 24, 8), smf.MetaKey(2, true, 2, false),
+		smf.MetaTrackSequenceName("n"), smf.MetaInstrument("i"), smf.MetaMarker("m"), smf.MetaCuepoint("c"), smf.MetaCopyright("c"), smf.MetaDevice("d"),
+		smf.MetaProgram("p"), smf.EOT} {
+		for _, lvl := range []string{"midi", "smf"} {
+			for fb := 0; fb < 256; fb++ {
+				b := append([]byte{byte(fb)}, msg[1:]...)
+				classify(lvl, b, true, &rec)
+				total++
+				ok := t.clsOk(&rec)
+				if !ok {
+					longBad++
+				}
+				if !ok || fb%4 == int(*seed)%4 {
+					w.Put(cloneCls(&rec))
+				}
+			}
+		}
+	}
+	for i := 0; w.N < *nsamp+3800; i++ {
 		n := 4 + r.Intn(61)
 		b := make([]byte, n)
 		for j := range b {
